@@ -27,6 +27,7 @@ def run(ck, fb):
     _run0(ck, fb)
     r06f(ck, fb)
     r06h(ck, fb)
+    ck.borrow('rules.c03', {'R03a': 'R06o'}, 'a conflicting suffix a follower removed must not come back after a restart: the resurrected entries were never committed, and a later leader_commit makes the node apply them in place of the committed ones - it settles on other contents than the majority')
     ck.borrow('rules.c01', {'R01aa': 'R06n'}, 'a publish acknowledged right after a compaction must be restored by the replay: a node that skips it serves the older content for good while the others serve the write')
     ck.borrow('rules.c08', {'R08a': 'R06m'}, 'entries replicated after a snapshot install must not be overtaken by the load of the snapshot: the older record would overwrite an acknowledged newer write on that follower')
     ck.borrow('rules.c02', {'R02s': 'R06k'}, 'an acknowledged publish whose log record is cut by a later preallocation step is lost for every node that reads it back from the file')
